@@ -887,6 +887,10 @@ func (schema *Schema) IsEmpty() bool {
 			return false
 		}
 	}
+	if len(schema.OneOf) > 1 {
+		// exactly one of several schemas must match: not the empty schema even if all of them are empty
+		return false
+	}
 	for _, s := range schema.OneOf {
 		if ss := s.Value; ss != nil && !ss.IsEmpty() {
 			return false
